@@ -239,6 +239,33 @@ func regression(emit func(hxlib.Case)) {
 	for _, c := range cases {
 		emit(hxlib.Case{Lines: c, NonTrivial: true, Kind: "regression"})
 	}
+	// numbers where an int64 stops being a float64 (the serialised form of a record is a JSON number): integer fields
+	// at 2^53 / 2^53+1, the ends of the int64 range, float fields holding 2^53, 2^62, ±2^63; every integer and float
+	// operator with operands at and next to those values, on typed and on serialised records, on every backend
+	for _, b := range []string{"h", "b", "f", "g"} {
+		c := []string{"cfg " + b + " 0", "if p 1 1 n 0 0 0 0",
+			"put p n/odd T 0,0,0,0,0,0 S=s:x;I=i:9007199254740993;F=f:9007199254740992000;B=b:0;N=o{X=i:9007199254740993};L=a[]",
+			"put p n/lim J 0,0,0,0,0,0 I=i:9007199254740992;F=f:4611686018427904000000",
+			"put p n/max T 0,0,0,0,0,0 S=s:x;I=i:9223372036854775807;F=f:9223372036855808000000;B=b:0;N=o{X=i:0};L=a[]",
+			"put p n/min J 0,0,0,0,0,0 I=i:-9223372036854775808;F=f:-9223372036855808000000",
+			"put p n/neg T 0,0,0,0,0,0 S=s:x;I=i:-9007199254740993;F=f:-9007199254740992000;B=b:0;N=o{X=i:0};L=a[]",
+			"put p n/small J 0,0,0,0,0,0 I=i:5;F=f:1500",
+			"get p n/odd", "get p n/lim", "get p n/max", "get p n/min", "get p n/neg"}
+		for _, op := range []string{"eq", "gt", "ge", "lt", "le"} {
+			for _, v := range []string{"9007199254740993", "9007199254740992", "-9007199254740992", "9223372036854775807", "9223372036854775806", "-9223372036854775808", "-9223372036854775807"} {
+				c = append(c, fmt.Sprintf("query p n/ [I:%s:%s]", op, v))
+			}
+			for _, v := range []string{"9007199254740992000", "9007199254740993000", "4611686018427904000000", "4611686018427904512000", "4611686018427904513000", "4611686018427387904000", "9223372036854775807000", "9223372036855808000000", "-9223372036854775808000", "1500"} {
+				c = append(c, fmt.Sprintf("query p n/ [F:f%s:%s]", op, v))
+			}
+		}
+		c = append(c, "query p n/ ![I:eq:9007199254740992]", "query p n/ &([I:gt:9007199254740992],[I:lt:9007199254740994])", "query p n/ |([I:eq:9223372036854775806],[F:feq:9223372036854775807000])",
+			"query p n/ [N.X:eq:9007199254740993]")
+		if b == "b" {
+			c = append(c, "purge p n/ [I:eq:9007199254740992]", "query p n/ -")
+		}
+		emit(hxlib.Case{Lines: c, NonTrivial: true, Kind: "regression:int64-float64-boundary"})
+	}
 }
 
 // genIterator: the result-stream hand-over on the real Iterator, free running and with the producer held
